@@ -456,7 +456,7 @@ def run_case(case):
                             bfs = [0, "one", 1, round(rnd.random(), 3)]
                         for bf in bfs:
                             plans.append(dict(kind=fk, window=wi, op=op, byte_frac=bf, cut_seed=rnd.randrange(1 << 30)))
-            cap = case.get("enumerate_cap", 400)
+            cap = case.get("enumerate_cap", 200)
             if len(plans) > cap:
                 stats["enumeration.truncated"] = 1
                 plans = [plans[i] for i in sorted(rnd.sample(range(len(plans)), cap))]
